@@ -703,6 +703,10 @@ def rule_encodeall(ctx):
                 good = good and (is_enc or is_cache or is_book)
             conds = [tm.show(c, 2) for c, _ in symeval.pc_conds(m.pc)]
             good = good and not conds
+            if not good and any(z.op == "call" and call_name(z) == "chord.encode" for z in tm.walk(m.val)) and not any(is_lit(a_) for a_ in alts):
+                # built from encode() results through plumbing this rule has no form for (integer codes and a gather,
+                # ...): not a label that bypasses encode()
+                raise AnalysisError(R, "encode_many: output %s is filled from encode() results through %s; this arrangement is not one the rule reads" % (root, tm.show(m.val, 3)))
             yield ob(R, f, "chord.encode_many:%s@%d" % (root, k), good, "output %s[i] is a component of encode(label) for every label" % root if good else "output %s[i] is written as %s%s: some labels bypass encode()" % (root, tm.show(m.val, 3), (" under " + "; ".join(conds)) if conds else ""), node=m.node)
     # the cache only ever holds encode() results
     out_sites = {id(x) for ms in outs.values() for x in ms}
